@@ -5,6 +5,7 @@ KEYS = [
     "doctrans.defaults_utils:extract_default",
     "doctrans.emitter_utils:interpolate_defaults",
     "doctrans.docstring_parsers:_infer_default",
+    "doctrans.docstring_parsers:_set_name_and_type",
 ]
 
 
